@@ -16,6 +16,8 @@
      6  the call did not return (deadlock / hang)                                    (property oracle)
      7  the call panicked                                                            (property oracle)
      8  an error was returned that no failing callback of this run produced          (property oracle)
+    10  the content slice given to the write callback changed while the callback was
+        running: the post-processor's result is shared with another worker           (property oracle)
    The oracles 2-8 look only at what was observed on the implementation, not at the model. *)
 From Coq Require Import List Arith Bool NArith Ascii String.
 From Verif Require Import Base.Bytes Gen.Persist Gen.PersistHook.
@@ -80,7 +82,11 @@ Inductive result :=
 | RPanic.
 
 Record case := mkcase {
-  c_kind : nat;                       (* 0 = OnFinished, 1 = Persist *)
+  c_kind : nat;                       (* 0 = OnFinished, 1 = Persist, 2 = OnFinished / Persist with the REAL
+                                         GoBackend.PostProcess: contents are SHA-256 digests, c_jobs holds
+                                         (path, digest of the content expected after post-processing, computed
+                                         by a serial PostProcess on a private copy), c_ppnil = true: the model
+                                         sees the post-processor as a pure function already applied *)
   c_mode : nat;                       (* 0 = forced schedule, 1 = free-running *)
   c_reserr : bool;                    (* kind 1: the response carries an error *)
   c_jobs : list (bytes * bytes);
@@ -92,7 +98,8 @@ Record case := mkcase {
   c_res : result;
   c_written : list (bytes * bytes);   (* completed writes (path, content) *)
   c_failed : list nat;                (* jobs whose PostProcess or write callback returned an error in this run *)
-  c_late : nat                        (* callbacks in flight at return + callback entries/exits after return *)
+  c_late : nat;                       (* callbacks in flight at return + callback entries/exits after return *)
+  c_unstable : nat                    (* kind 2: the slice handed to the write callback changed while the callback ran *)
 }.
 
 (* the post-processor used by the harness *)
@@ -100,7 +107,11 @@ Definition hpp (p c : bytes) : bytes := c ++ B "#pp:" ++ p.
 
 (* trace encoding: kind letter + job digit *)
 Definition digit (a : ascii) : option nat :=
-  let v := nat_of_ascii a in if (48 <=? v) && (v <=? 57) then Some (v - 48) else None.
+  let v := nat_of_ascii a in
+  if (48 <=? v) && (v <=? 57) then Some (v - 48)              (* 0-9 *)
+  else if (65 <=? v) && (v <=? 90) then Some (v - 55)         (* A-Z = 10..35 *)
+  else if (97 <=? v) && (v <=? 122) then Some (v - 61)        (* a-z = 36..61 *)
+  else None.
 
 Definition ev_of (kind idx : ascii) : option ev :=
   match kind with
@@ -217,7 +228,8 @@ Definition check (c : case) : list N :=
               | RErr j _ => if mem j (c_failed c) then [] else [8%N]
               | ROther | RPre => [8%N]
               | _ => [] end in
-    corr ++ o2 ++ o3 ++ o4 ++ o5 ++ o6 ++ o7 ++ o8
+    let o10 := if Nat.eqb (c_unstable c) 0 then [] else [10%N] in
+    corr ++ o2 ++ o3 ++ o4 ++ o5 ++ o6 ++ o7 ++ o8 ++ o10
   end.
 
 Fixpoint mismatches_from (i : N) (cs : list case) : list (N * N) :=
